@@ -122,6 +122,130 @@ end
 
 end
 
+/-! ### R1 on its own: a well-scoped construct has only bound reference occurrences -/
+
+/-- every occurrence is bound -/
+def OccsBound (params : List Bytes) (os : List Occ) : Prop := ∀ o ∈ os, RefBound params o.1 o.2
+
+theorem OccsBound.nil (params : List Bytes) : OccsBound params [] := by intro o ho; cases ho
+
+theorem OccsBound.append {params : List Bytes} {a b : List Occ} (ha : OccsBound params a)
+    (hb : OccsBound params b) : OccsBound params (a ++ b) := by
+  intro o ho
+  rcases List.mem_append.mp ho with h | h
+  · exact ha o h
+  · exact hb o h
+
+theorem OccsBound.keys {params : List Bytes} {env : Env} {ks : List Bytes} (h : KeysBound params env ks) :
+    OccsBound params (occsKeys env ks) := by
+  intro o ho
+  obtain ⟨k, hk, rfl⟩ := List.mem_map.mp ho
+  exact h k hk
+
+section
+variable {reg : List Check.Template} {params : List Bytes}
+
+mutual
+  theorem okCmd_occs : (c : Cmd) → (env : Env) → OkCmd reg params env c → OccsBound params (occsCmd env c)
+    | .rawText .., env, _ => OccsBound.nil _
+    | .debugger .., env, _ => OccsBound.nil _
+    | .namespace .., env, _ => OccsBound.nil _
+    | .soyDoc .., env, _ => OccsBound.nil _
+    | .headerParam .., env, _ => OccsBound.nil _
+    | .print _ a dirs, env, h => by simp only [OkCmd] at h; simpa only [occsCmd] using OccsBound.keys h
+    | .msg _ _ _ _ _ body, env, h => by
+      simp only [OkCmd] at h; simpa only [occsCmd] using okParts_occs body env h
+    | .css _ e _, env, h => by simp only [OkCmd] at h; simpa only [occsCmd] using OccsBound.keys h
+    | .log _ b, env, h => by simp only [OkCmd] at h; simpa only [occsCmd] using okBlock_occs b env h
+    | .ifc _ conds, env, h => by
+      simp only [OkCmd] at h; simpa only [occsCmd] using okConds_occs conds env h
+    | .forc _ v l b (some b'), env, h => by
+      simp only [OkCmd] at h
+      simp only [occsCmd]
+      exact (OccsBound.keys h.1).append ((okBlock_occs b _ h.2.1).append (okBlock_occs b' env h.2.2))
+    | .forc _ v l b none, env, h => by
+      simp only [OkCmd] at h
+      simp only [occsCmd]
+      exact (OccsBound.keys h.1).append ((okBlock_occs b _ h.2.1).append (OccsBound.nil _))
+    | .switch _ v cases, env, h => by
+      simp only [OkCmd] at h
+      simp only [occsCmd]
+      exact (OccsBound.keys h.1).append (okCases_occs cases env h.2)
+    | .call _ name allData d ps, env, h => by
+      simp only [OkCmd] at h
+      simp only [occsCmd]
+      exact (OccsBound.keys h.2.1).append (okParams_occs ps env h.2.2)
+    | .letValue _ _ e, env, h => by
+      simp only [OkCmd] at h; simpa only [occsCmd] using OccsBound.keys h.2
+    | .letContent _ _ b, env, h => by
+      simp only [OkCmd] at h; simpa only [occsCmd] using okBlock_occs b env h.2
+    | .template _ _ b _ _, env, h => by
+      simp only [OkCmd] at h; simpa only [occsCmd] using okBlock_occs b env h
+  theorem okBlock_occs : (b : Block) → (env : Env) → OkBlock reg params env b →
+      OccsBound params (occsBlock env b)
+    | .mk _ cmds, env, h => by
+      simp only [OkBlock] at h; simpa only [occsBlock] using okCmds_occs cmds env h
+  theorem okCmds_occs : (cs : CmdList) → (env : Env) → OkCmds reg params env cs →
+      OccsBound params (occsCmds env cs)
+    | .nil, env, _ => OccsBound.nil _
+    | .cons c r, env, h => by
+      simp only [OkCmds] at h
+      simp only [occsCmds]
+      exact (okCmd_occs c env h.1).append (okCmds_occs r _ h.2.2)
+  theorem okConds_occs : (cs : CondList) → (env : Env) → OkConds reg params env cs →
+      OccsBound params (occsConds env cs)
+    | .nil, env, _ => OccsBound.nil _
+    | .cons _ c b r, env, h => by
+      simp only [OkConds] at h
+      simp only [occsConds]
+      exact ((OccsBound.keys h.1.1).append (okBlock_occs b env h.1.2)).append (okConds_occs r env h.2)
+  theorem okCases_occs : (cs : CaseList) → (env : Env) → OkCases reg params env cs →
+      OccsBound params (occsCases env cs)
+    | .nil, env, _ => OccsBound.nil _
+    | .cons _ vs b r, env, h => by
+      simp only [OkCases] at h
+      simp only [occsCases]
+      exact ((okBlock_occs b env h.1.1).append (OccsBound.keys h.1.2)).append (okCases_occs r env h.2)
+  theorem okParams_occs : (ps : ParamList) → (env : Env) → OkParams reg params env ps →
+      OccsBound params (occsParams env ps)
+    | .nil, env, _ => OccsBound.nil _
+    | .value _ _ e r, env, h => by
+      simp only [OkParams] at h
+      simp only [occsParams]
+      exact (OccsBound.keys h.1).append (okParams_occs r env h.2)
+    | .content _ _ b r, env, h => by
+      simp only [OkParams] at h
+      simp only [occsParams]
+      exact (okBlock_occs b env h.1).append (okParams_occs r env h.2)
+  theorem okParts_occs : (ps : MsgParts) → (env : Env) → OkParts reg params env ps →
+      OccsBound params (occsParts env ps)
+    | .nil, env, _ => OccsBound.nil _
+    | .text _ _ r, env, h => by
+      simp only [OkParts] at h; simpa only [occsParts] using okParts_occs r env h
+    | .ph _ _ (.htmlTag ..) r, env, h => by
+      simp only [OkParts] at h
+      simp only [occsParts]
+      exact (OccsBound.nil _).append (okParts_occs r env h.2)
+    | .ph _ _ (.cmd c) r, env, h => by
+      simp only [OkParts] at h
+      simp only [occsParts]
+      exact (okCmd_occs c env h.1.1).append (okParts_occs r env h.2)
+    | .plural _ _ v cases _ d r, env, h => by
+      simp only [OkParts] at h
+      simp only [occsParts]
+      exact ((OccsBound.keys h.1.1).append ((okPlCases_occs cases env h.1.2.1).append
+        (okParts_occs d env h.1.2.2))).append (okParts_occs r env h.2)
+  theorem okPlCases_occs : (cs : PluralCases) → (env : Env) → OkPlCases reg params env cs →
+      OccsBound params (occsPlCases env cs)
+    | .nil, env, _ => OccsBound.nil _
+    | .cons _ _ _ b r, env, h => by
+      simp only [OkPlCases] at h
+      simp only [occsPlCases]
+      exact (okParts_occs b env h.1).append (okPlCases_occs r env h.2)
+end
+
+end
+
 /-! ### "every let declared here is used" -/
 
 theorem decl_cases (c : Cmd) : decl c = [] ∨ ∃ name, decl c = [{ name := name, isLet := true }] := by
